@@ -63,20 +63,50 @@ func busScenario(r *rand.Rand, emit func(map[string]interface{})) {
 		}
 	}
 	span := uint32(0x100)
-	near := func() uint32 {
+	var near func() uint32
+	near = func() uint32 {
 		a := base + uint32(r.Intn(int(span)))
 		if a > 0xFFFFFF {
 			a = 0xFFFFFF
 		}
 		return a
 	}
+	// sometimes the neighbourhood is "the same offsets in several consecutive banks" (whole-bank attaches)
+	multi := r.Intn(5) == 0
+	if multi {
+		base = uint32(r.Intn(250)) << 16
+		nearOld := near
+		near = func() uint32 {
+			if r.Intn(2) == 0 {
+				return base + uint32(r.Intn(4))<<16 + uint32(r.Intn(0x40))<<4 + uint32(r.Intn(16))
+			}
+			return nearOld()
+		}
+	}
 	nops := 6 + r.Intn(20)
 	for op := 0; op < nops; op++ {
-		x := r.Intn(10)
+		x := r.Intn(11)
 		if op < 2 {
 			x = 0
 		}
+		if multi && op == 0 { // one memory over several complete banks
+			nb := uint32(2 + r.Intn(3))
+			m := 1 + r.Intn(4)
+			err := b.Attach(mems[m], "m", base, base+nb<<16-1)
+			emit(map[string]interface{}{"k": "attach", "m": m, "s": base, "e": base + nb<<16 - 1, "err": err != nil, "panic": false})
+			continue
+		}
 		switch {
+		case x == 10: // 24-bit read wrapping inside the bank (used by the CPU for long pointers)
+			a := near()
+			if r.Intn(3) == 0 {
+				a = a&0xFF0000 | 0xFFFD + uint32(r.Intn(3))
+			}
+			acc = acc[:0]
+			var v uint32
+			p := guard(func() { v = b.EaRead24_wrap(byte(a>>16), uint16(a)) })
+			emit(map[string]interface{}{"k": "read24", "bank": a >> 16, "addr": a & 0xFFFF, "panic": p != "", "seen": append([][]int{}, acc...),
+				"v": []int{int(v & 0xFFFF), int(v >> 16)}})
 		case x < 3: // attach
 			s := near() &^ 0xF
 			nb := uint32(1 + r.Intn(6))
